@@ -1,6 +1,7 @@
 package main
 
 import (
+	"sync"
 	"github.com/libsv/go-bk/crypto"
 	"bufio"
 	"encoding/hex"
@@ -92,6 +93,14 @@ func (e *emitter) close() {
 
 // safe runs f, turning a panic into the string "panic <msg>"
 func safe(f func() string) (out string) {
+	arenaMu.Lock()
+	guards = guards[:0]
+	arenaMu.Unlock()
+	defer func() {
+		if !guardsIntact() && !strings.HasPrefix(out, "caller-buffer-written") {
+			out = "caller-buffer-written " + out
+		}
+	}()
 	defer func() {
 		if r := recover(); r != nil {
 			msg := fmt.Sprint(r)
@@ -144,7 +153,51 @@ func descTx(tx *bt.Tx) string {
 	return sb.String()
 }
 
-func scr(b []byte) *bscript.Script { s := bscript.Script(b); return &s }
+// scr makes a script the way a caller that packs its data may hold it: the bytes sit in a larger buffer, followed by
+// 16 guard bytes and then by whatever is allocated next, and the slice's capacity reaches past its length — so library
+// code that appends to (or writes behind) a script it was merely given lands in the guard.  safe() checks the guards of
+// the scripts made during the op it ran.
+var (
+	arenaMu sync.Mutex
+	arena   []byte
+	guards  [][]byte
+)
+
+const guardByte = 0xA5
+
+func scr(b []byte) *bscript.Script {
+	arenaMu.Lock()
+	defer arenaMu.Unlock()
+	need := len(b) + 16
+	if cap(arena)-len(arena) < need {
+		n := 1 << 20
+		if need*2 > n {
+			n = need * 2
+		}
+		arena = make([]byte, 0, n) // the old chunk stays alive as long as scripts point into it; it is never reused
+	}
+	off := len(arena)
+	arena = append(arena, b...)
+	for i := 0; i < 16; i++ {
+		arena = append(arena, guardByte)
+	}
+	s := bscript.Script(arena[off : off+len(b)])
+	guards = append(guards, arena[off+len(b):off+len(b)+16])
+	return &s
+}
+
+func guardsIntact() bool {
+	arenaMu.Lock()
+	defer arenaMu.Unlock()
+	for _, g := range guards {
+		for _, x := range g {
+			if x != guardByte {
+				return false
+			}
+		}
+	}
+	return true
+}
 
 // mkInput builds an input without going through validation
 func mkInput(txid []byte, vout uint32, unlocking *bscript.Script, seq uint32, sats uint64, prev *bscript.Script) *bt.Input {
